@@ -88,7 +88,7 @@ claim(
 claim(
     "C08",
     "other",
-    "Decides axis-relabelling equivariance of the solver code: one forward and one backward step of forward()/backward() are abstractly interpreted on scenes invariant under x->y->z->x (every material tier incl. full tensors, both conductivities, non-uniform metric atoms, CPML layers on the three min or max faces with kappa=1 and kappa!=1, PEC/PMC walls and periodic faces on all axes, abstract sources) and output component sigma(c), and each CPML memory variable of layer sigma(p), is compared as a polynomial identity with the relabelled form of component c / layer p; likewise the TFSF face injections of TFSFPlaneSource.update_E/update_H over 3 axes x 2 directions x forward/inverse x material tiers (real and complex incident fields), the Bloch ghost-cell correction, the oriented transverse-axis helper, the PEC/PMC hooks and the absorbing layers' interface slices. The Yee sample-offset table and the per-component source delays of calculate_time_offset_yee (three plane orientations, stretched edges) are relabelling-covariant. Equality of whole runs up to round-off, detectors and the rest of source-profile construction are not decided.",
+    "Decides axis-relabelling equivariance of the solver code: one forward and one backward step of forward()/backward() are abstractly interpreted on scenes invariant under x->y->z->x (every material tier incl. full tensors, both conductivities, non-uniform metric atoms, CPML layers on the three min or max faces with kappa=1 and kappa!=1, PEC/PMC walls and periodic faces on all axes, abstract sources) and output component sigma(c), and each CPML memory variable of layer sigma(p), is compared as a polynomial identity with the relabelled form of component c / layer p; likewise the TFSF face injections of TFSFPlaneSource.update_E/update_H over 3 axes x 2 directions x forward/inverse x material tiers (real and complex incident fields), the Bloch ghost-cell correction, the oriented transverse-axis helper, the PEC/PMC hooks and the absorbing layers' interface slices. The material arrays the step works on are filled component-covariantly (each object's own xx / yy / zz entry of each property in the slot of the same index: C28's painting rule on three tiered scenes, R8.7). The Yee sample-offset table and the per-component source delays of calculate_time_offset_yee (three plane orientations, stretched edges) are relabelling-covariant. Equality of whole runs up to round-off, detectors and the rest of source-profile construction are not decided.",
     TB + "; sa/sigma.py axis relabelling of atoms; sa/ndarr.py stencil/indicator array model; abstract source model of C02; jnp clamped out-of-bounds reads modelled only for isotropic (1,...) material arrays",
     "abstract interpretation of one solver step to rational normal forms over a stencil domain; sibling comparison under the axis-relabelling group action (polynomial identity)",
     "DESIGN.md §5 C08",
@@ -106,7 +106,7 @@ claim(
 claim(
     "C16",
     "other",
-    "Decides the reduction formulas by interpreting every detector update() twice on arrays of free symbolic entries (fields, cell-volume and face-area weights) for several concrete region shapes incl. size-one axes, resolved and reduced, and comparing the reduced record as a polynomial identity with the weighted mean / sum formed from the resolved record: field and phasor records = sum(v*w)/sum(w) per frequency and component; energy = sum(density*w) with density = 1/2 sum_c(|E_c|^2/inv_eps_c+|H_c|^2/inv_mu_c); Poynting record = E x conj(H), reduced = sum(S*area), '-' negates, single component = propagation component; closed surface = sum over active axes of (+last - first face) of S_a*area_a, 'inward' negates; inverse phasor detectors subtract what forward ones add; propagation-axis decision tables (fixed axis incl. 0 / unique size-one axis / error); face-area weight helper on resolved and uniform grids; every update override in the phasor family (closed surface, field projection) subtracts when inverse exactly the term it adds when forward. Holds for all inputs of the interpreted shapes; summation order / round-off not decided.",
+    "Decides the reduction formulas by interpreting every detector update() twice on arrays of free symbolic entries (fields, cell-volume and face-area weights) for several concrete region shapes incl. size-one axes, resolved and reduced, and comparing the reduced record as a polynomial identity with the weighted mean / sum formed from the resolved record: field and phasor records = sum(v*w)/sum(w) per frequency and component; energy = sum(density*w) with density = 1/2 sum_c(|E_c|^2/inv_eps_c+|H_c|^2/inv_mu_c); Poynting record = E x conj(H), reduced = sum(S*area), '-' negates, single component = propagation component; closed surface = sum over active axes of (+last - first face) of S_a*area_a, 'inward' negates; inverse phasor detectors subtract what forward ones add; propagation-axis decision tables (fixed axis incl. 0 / unique size-one axis / error); face-area weight helper on resolved and uniform grids; every update override in the phasor family (closed surface, field projection) subtracts when inverse exactly the term it adds when forward; the closed-surface phasor detector's net flux sums, over its active axes (every subset), max face minus min face of S_a times the face-area weights of that same axis. Holds for all inputs of the interpreted shapes; summation order / round-off not decided.",
     TB + "; sa/ndarr.py model of sum/mean/take/reshape/cross/stack on concrete-shape arrays; size-uniformity of those reductions",
     "abstract interpretation on concrete-shape arrays of free symbols; polynomial identity between reduced and resolved records; finite decision tables",
     "DESIGN.md §5 C16",
@@ -232,7 +232,7 @@ claim(
 claim(
     "C18",
     "other",
-    "Decides apply_params up to the end of its device loop by abstract interpretation on devices with symbolic, possibly overlapping grid slices and a symbolic per-cell parameter x, as polynomial identities in the devices' region indicators: continuous two-material devices write 1/(p0 + x (p1-p0)) per stored component (isotropic and diagonal tiers) with materials in the common order; etched devices write 1/(bg + x (p_etch - bg)) with bg the reciprocal of the restored initial inverse permittivity, restored once before the first device (stale values never survive; a later etched device keeps an earlier device's cells); discrete devices store the table entry of 1/eps or of the inverted 3x3 tensor at the integer material index; dispersive stacks c1..c4 blend (1-x)c_N[0]+x c_N[1] or look up c_N[index], each N from its own table, c4 only when allocated; outside the device slices every array keeps its incoming (restored) value and several devices paint sequentially in list order. _init_arrays keeps the backup of the initial inverse permittivity whenever at least one device etches (backward slice of the backup's definition interpreted over eight device lists, mixed ones included). Parameter transform chains, voxel expansion and the straight-through gradient (C19) are not decided here.",
+    "Decides apply_params up to the end of its device loop by abstract interpretation on devices with symbolic, possibly overlapping grid slices and a symbolic per-cell parameter x, as polynomial identities in the devices' region indicators: continuous two-material devices write 1/(p0 + x (p1-p0)) per stored component (isotropic and diagonal tiers) with materials in the common order; etched devices write 1/(bg + x (p_etch - bg)) with bg the reciprocal of the restored initial inverse permittivity, restored once before the first device (stale values never survive; a later etched device keeps an earlier device's cells); discrete devices store the table entry of 1/eps or of the inverted 3x3 tensor at the integer material index; dispersive stacks c1..c4 blend (1-x)c_N[0]+x c_N[1] or look up c_N[index], each N from its own table, c4 only when allocated; outside the device slices every array keeps its incoming (restored) value and several devices paint sequentially in list order. _init_arrays keeps the backup of the initial inverse permittivity whenever at least one device etches (backward slice of the backup's definition interpreted over eight device lists, mixed ones included). The coefficient tables the devices index are in the common material order, like the permittivity table (C35's row rule, R18.6). Parameter transform chains, voxel expansion and the straight-through gradient (C19) are not decided here.",
     TB + "; prefix slicing of apply_params; symbolic table-lookup atoms for integer indices; indicator algebra; tree .at[name].set model",
     "abstract interpretation of a function prefix over an indicator-algebra array domain; polynomial identity against a sequential-painting oracle",
     "DESIGN.md §5 C18",
